@@ -38,6 +38,8 @@ func main() {
 		vnodeMain(os.Args[2])
 	case "signer":
 		signerChildMain(os.Args[2:])
+	case "signer-node":
+		signerNodeChildMain(os.Args[2:])
 	case "smoke":
 		os.Exit(smoke())
 	case "check":
